@@ -75,6 +75,17 @@ fn main() {
     }
     let threads = std::env::var("VERIF_THREADS").ok().and_then(|s| s.parse().ok()).unwrap_or(16);
     rayon::ThreadPoolBuilder::new().num_threads(threads).stack_size(16 << 20).build_global().ok();
+    // whole-run horizon: an exploration that is still running after this long is stuck (e.g. the subject blocks on
+    // a lock the scheduler cannot see) - a machinery exit, never a verdict. VERIF_MAX_SECS overrides.
+    {
+        let default = if tier == Tier::Thorough { 6 * 3600 } else { 3600 };
+        let secs = std::env::var("VERIF_MAX_SECS").ok().and_then(|s| s.parse::<u64>().ok()).unwrap_or(default);
+        std::thread::spawn(move || {
+            std::thread::sleep(std::time::Duration::from_secs(secs));
+            eprintln!("MACHINERY-ERROR: the exploration did not finish within {secs} s (VERIF_MAX_SECS)");
+            std::process::exit(2);
+        });
+    }
     if let Some(path) = replay {
         std::process::exit(props::replay(&id, &path));
     }
